@@ -7,7 +7,8 @@ from props._util import rng_for, run_cases
 
 LEVEL = "other"
 DEDUCTIVE = [{"module": "rnapolis.tertiary", "sidecar": "contracts.mapping_c",
-              "targets": ["Mapping2D3D.__generate_bpseq", "Mapping2D3D._generated_bpseq_data"]}]
+              "targets": ["Mapping2D3D.__generate_bpseq", "Mapping2D3D._generated_bpseq_data", "Mapping2D3D.base_pairs@body",
+                          "BasePair3D.reverse", "Structure3D.find_residue@body"]}]
 TRUSTED = ["CPython 3.12", "the MILP path of BpSeq.dot_bracket (C02)"]
 ASSUMPTIONS = ["pair lists name nucleotide residues; self pairs are not generated; Saenger labels are a function of (bases, class) within one list"]
 EXPLANATION = "see DESIGN.md 4/C06"
